@@ -42,7 +42,7 @@ def directed(rng: random.Random) -> dict:
             {"k": "label", "n": "after2"}, {"k": "data", "d": "dl", "es": [E("after2"), E("after1")]}]
     outer = rng.choice([0x10, 0xFF, 0x100, 0x1234, 0x12345])
     kind = rng.choice(["const_then_inner_label", "const_then_inner_sym", "const_then_inner_const", "param_then_label", "loopvar_then_sym",
-                       "agreeing_shadow", "backward_label", "const_plain", "text_before_inner_table", "big_incbin"])
+                       "agreeing_shadow", "backward_label", "const_plain", "text_before_inner_table", "big_incbin", "position_from_symbol_set_twice"])
     if kind == "text_before_inner_table":
         t1 = [["41", "a"], ["42", "b"], ["43", "c"]]
         t2 = [["0141", "a"], ["0242", "b"], ["030303", "c"], ["04", "ab"]]
@@ -54,6 +54,19 @@ def directed(rng: random.Random) -> dict:
         body = [{"k": "org", "e": E(start)}, {"k": "table", "f": "narrow.tbl"}, {"k": "text", "t": "ab"}, st] + ([{"k": "call", "n": "mtxt", "as": []}] * 2 if wrap == "macro" else []) + \
                [{"k": "text", "t": "ca"}] + tail
         return {"prog": body, "files": {}, "tables": {"narrow.tbl": t1, "wide.tbl": t2}, "rom": "low", "family": "directed:" + kind}
+    if kind == "position_from_symbol_set_twice":
+        # a `=` symbol used like a variable: set, used by a position move, set again, used again. Whatever value each move takes, the
+        # labels after it must be where the bytes go (or the program is rejected)
+        mv = rng.choice(["org", "org", "reloc"])
+        a1, a2 = rng.sample([0x018000, 0x028000, 0x03C000, 0x048123], 2)
+        setk = rng.choice(["sym", "sym", "assign"])
+        db = lambda v: {"k": "data", "d": "db", "es": [E(v)]}  # noqa: E731
+        first = [{"k": setk, "n": "zbase", "e": E(a1)}, {"k": mv, "e": E("zbase")}, {"k": "label", "n": "zfirst"}, db(0xA1)]
+        second = [{"k": rng.choice([setk, "sym"]), "n": "zbase", "e": E(a2)}, {"k": mv, "e": E("zbase")}, {"k": "label", "n": "zsecond"}, db(0xB2)]
+        if rng.random() < 0.3:
+            second = [{"k": "block", "b": second}]
+        body = [{"k": "org", "e": E(start)}, {"k": "data", "d": "dl", "es": [E("zfirst"), E("zsecond")]}] + first + second + tail
+        return {"prog": body, "files": {}, "tables": {}, "rom": "low", "family": "directed:" + kind}
     if kind == "big_incbin":
         rom = rng.choice(["low", "high"])
         n = rng.choice([0x8000, 0x8001, 0x12000, 0x21000]) if rom == "low" else rng.choice([0x10000, 0x10001, 0x21000])
